@@ -178,7 +178,8 @@ end
 /-- `serde_json::from_str` + `json_to_value`; `none` = parse error (`EvalError::ExpectedJson`) -/
 def parse (s : String) : Option Value :=
   let cs := s.toList
-  match parseValue (cs.length + 2) 128 cs with
+  -- serde_json: `remaining_depth` starts at 128 and entering the 128th nested array/object fails
+  match parseValue (cs.length + 2) 127 cs with
   | some (v, rest) => if (skipWs rest).isEmpty then some v else none
   | none => none
 
